@@ -782,6 +782,29 @@ def run_check(prop: Prop, tier: str, seed: int, replay: str | None = None) -> in
                         violations.append(("oracle", case, what))
                         break
 
+        # 5b. the library source differs from the recorded baseline and nothing has been found: look harder with the
+        #     property oracle (more generated inputs). Costs nothing on the recorded tree and cannot raise a false alarm
+        #     (same oracle, same known-finding classification).
+        changed = source_changed_files()
+        if changed and not broken and not violations:
+            with ctx.timed("search_changed_source"):
+                extra = list(prop.generate(ctx, "search", budget_scale=3))
+                searched = len(extra)
+                sobs = prop.impl(ctx, extra)
+                for case, ob in zip(extra, sobs):
+                    if isinstance(ob, SkipCase):
+                        continue
+                    try:
+                        what = prop.oracle(case, ob)
+                    except Exception:  # noqa  (an oracle that cannot digest an observation decides nothing here)
+                        what = None
+                    if what:
+                        kid = prop.classify(case, what, known_active)
+                        if kid is not None and kid in known_active:
+                            continue
+                        violations.append(("oracle", case, what))
+                        break
+
         # 6. verdict
         rc = 0
         for kid, hits in known_hits.items():
@@ -832,6 +855,7 @@ def run_check(prop: Prop, tier: str, seed: int, replay: str | None = None) -> in
                 "clauses": [{"tag": t, "text": x} for t, x in prop.clauses],
                 "known_findings_seen": sorted(known_hits),
                 "broken": broken,
+                "library_source_differs_from_baseline": changed[:20],
                 "timings_s": ctx.timings,
             },
             "assumptions": list(prop.assumptions),
@@ -845,6 +869,39 @@ def run_check(prop: Prop, tier: str, seed: int, replay: str | None = None) -> in
         return rc
     finally:
         ctx.cleanup()
+
+
+SOURCE_DIGESTS = ROOT / "harness" / "source_digests.json"
+
+
+def source_digests(repo=None):
+    """{relative path: sha256 of the AST dump} for every library module (comments/formatting-insensitive)."""
+    import ast
+    repo = Path(repo or REPO)
+    out = {}
+    for f in sorted((repo / "pytreenet").rglob("*.py")):
+        raw = f.read_bytes()
+        try:
+            import warnings
+            with warnings.catch_warnings():
+                warnings.simplefilter("ignore")
+                data = ast.dump(ast.parse(raw)).encode()
+        except SyntaxError:
+            data = raw
+        out[str(f.relative_to(repo))] = hashlib.sha256(data).hexdigest()
+    return out
+
+
+def source_changed_files():
+    """library modules whose AST differs from the baseline recorded when the checks were last run green on /repo
+    (harness/source_digests.json, written by `check.py --record-source`). Only used to decide how HARD to search:
+    a changed source never is a violation by itself."""
+    try:
+        base = json.loads(SOURCE_DIGESTS.read_text())["files"]
+    except Exception:
+        return ["<no baseline>"]
+    cur = source_digests()
+    return sorted(k for k in set(base) | set(cur) if base.get(k) != cur.get(k))
 
 
 class SkipCase:
